@@ -1159,6 +1159,11 @@ class comp(exp):
         # once simplified, it may be reduced to 1 part, so:
         if (0, res.size) in res.parts.keys():
             res = res.parts[(0, res.size)]
+            if type(res) is cst:
+                # the parts have been merged into one constant:
+                # it stands for the whole comp and inherits its sign flag
+                res = cst(res.v, res.size)
+                res.sf = self.sf
         return res
 
     def copy(self):
